@@ -111,7 +111,7 @@ pub fn build(a: &LensArgs) -> LensCfg {
         },
         "cleaner" => {
             cfg.name = "cleaner";
-            cfg.codes = codes(&[New, Dup, Drop, Store, Take, Collect, Register, Clean, DropCleanable, TakeG, DropG]);
+            cfg.codes = codes(&[New, Dup, Drop, Store, Take, Collect, Register, Clean, DropCleanable, TakeG, DropG, PutG]);
             cfg.action_menu = a.action_menu.clone().unwrap_or_else(|| vec![0, 1, 3, 4, 5]);
         },
         // Many cleaning actions on one Cleaner (slot reuse inside the action map)
@@ -146,6 +146,11 @@ pub fn build(a: &LensArgs) -> LensCfg {
         "sat" => {
             cfg.name = "sat";
             cfg.codes = codes(&[New, Dup, Drop, Store, Collect, Downgrade, Upgrade, DupWeak, DropWeak, FillStrong, FillWeak, DropStash, CloneExpectPanic, DowngradeExpectPanic, UpgradeExpectPanic, DupWeakExpectPanic]);
+            // optional: finalized-and-resurrected objects at the limit (flag bit next to the counter)
+            if let Some(m) = a.fin_menu.clone() {
+                cfg.codes |= codes(&[SetFin, TakeG, DropG]);
+                cfg.fin_menu = m;
+            }
         },
         other => panic!("unknown lens {}", other),
     }
